@@ -163,9 +163,10 @@ def pool(contract, seed=0, limit=4000):
             from statham.schema.elements import Element, Nothing, String
             from statham.schema.elements.items import Items
             from statham.schema.constants import NotPassed
-            for items in (NotPassed(), String(), Nothing(), [], [String()], Element()):
-                for addl in (True, False, String(), Nothing()):
-                    yield (lambda i, a: Items(i, a)), (items, addl)
+            from statham.schema.elements import Number
+            for items in (NotPassed(), String(), Nothing(), [], [String()], Element(), [Nothing()]):
+                for addl in (True, False, String(), Nothing(), Number()):
+                    yield fn, (Items.__new__(Items), items, addl)
         return
     if cls_name in ("Properties", "PatternDict"):
         def props_objs():
